@@ -161,7 +161,10 @@ def gen_hkdf(ctx):
 def gen_bits(ctx):
     rng = ctx.rng
     vals = set(list(range(246, 275)) + list(range(8176, 8204)) + [0, 1, 8, 31, 32, 128, 1024, 1025, 4096, 65536, -1, -256,
-               2 ** 31 - 1, 2 ** 31, 2 ** 63, -2 ** 63 - 1, 10 ** 30])
+               2 ** 31 - 1, 2 ** 31, 2 ** 63, -2 ** 63 - 1, 10 ** 30]
+               # numbers that are legal sizes only modulo 2^32 / 2^16 / 2^8 (a value narrowed before its range check)
+               + [k * 2 ** 32 + v for k in (1, 2, -1, 2 ** 31 - 1) for v in (256, 1024, 8192, 257)]
+               + [2 ** 32 + 255, 2 ** 32 + 8193, 2 ** 16 + 256, 2 ** 16 + 1024, 2 ** 15 + 2 ** 16 * 3, 2 ** 31 + 1024, 2 ** 33 + 512, 2 ** 62 + 1024])
     if ctx.thorough:
         vals |= set(range(200, 8260))
     else:
